@@ -600,3 +600,111 @@ pub fn catch<T>(f: impl FnOnce() -> T) -> Result<T, String> {
         }
     }
 }
+
+/// Verdict inside a libFuzzer target: known findings are tolerated (so a campaign does not
+/// rediscover one finding forever), any other failure aborts the process, which makes libFuzzer
+/// save the input; `fuzz_part` turns it into a replay file.
+pub fn fuzz_verdict(id: &str, check: &dyn Check, data: &[u8]) {
+    use std::sync::OnceLock;
+    static KNOWN: OnceLock<Known> = OnceLock::new();
+    static HOOK: OnceLock<()> = OnceLock::new();
+    HOOK.get_or_init(install_panic_hook);
+    let known = KNOWN.get_or_init(Known::load);
+    let r = check.run(data);
+    if let Some(f) = r.failures.iter().find(|f| known.get(id, &f.sig).is_none()) {
+        eprintln!("FUZZ-FAILURE property={} sig={} what={}", id, f.sig, f.what);
+        std::process::abort();
+    }
+}
+
+/// Coverage-guided campaign (cargo-fuzz / libFuzzer) on the same decoder and oracle as `check`.
+/// Crashing inputs are re-executed through the check itself; only a failure the check confirms
+/// becomes a violation. Build problems and resource limits are reported as inconclusive notes.
+pub fn fuzz_part(ctx: &Ctx, target: &str, check: &dyn Check, runs: u64, max_len: usize) -> Part {
+    let t0 = Instant::now();
+    let mut part = Part { name: format!("libfuzzer:{}", target), ..Default::default() };
+    let root = verif_root();
+    let corpus = format!("{}/target/fuzz-corpus/{}-{}", root, target, ctx.seed);
+    let artifacts = format!("{}/target/fuzz-artifacts/{}/", root, target);
+    let _ = std::fs::remove_dir_all(&corpus);
+    let _ = std::fs::remove_dir_all(&artifacts);
+    let _ = std::fs::create_dir_all(&corpus);
+    let _ = std::fs::create_dir_all(&artifacts);
+    // seed corpus: a few deterministic byte strings of full length (libFuzzer ramps length slowly)
+    let mut state = fnv(format!("fuzz-{}-{}", target, ctx.seed).as_bytes());
+    for k in 0..24 {
+        let len = if k < 4 { 16 } else { max_len.min(64 << (k % 5)) };
+        let mut v = Vec::with_capacity(len);
+        for _ in 0..len {
+            state = state.wrapping_mul(6364136223846793005).wrapping_add(1442695040888963407);
+            v.push((state >> 33) as u8);
+        }
+        let _ = std::fs::write(format!("{}/seed-{:02}", corpus, k), v);
+    }
+    let jobs = ctx.workers.max(1);
+    let out = std::process::Command::new("cargo")
+        .current_dir(format!("{}/fuzz", root))
+        .env("CARGO_NET_OFFLINE", "true")
+        .env("VERIF_ROOT", &root)
+        .args(["+nightly", "fuzz", "run", "--fuzz-dir", ".", target, &corpus, "--"])
+        .arg(format!("-runs={}", runs))
+        .arg(format!("-seed={}", ctx.seed.max(1)))
+        .arg("-len_control=0")
+        .arg(format!("-max_len={}", max_len))
+        .arg(format!("-artifact_prefix={}", artifacts))
+        .arg(format!("-fork={}", jobs))
+        .arg("-ignore_crashes=0")
+        .arg("-print_final_stats=1")
+        .output();
+    let out = match out {
+        Ok(o) => o,
+        Err(e) => {
+            part.labels.insert(format!("inconclusive: cannot start cargo fuzz: {}", e), 1);
+            return part;
+        }
+    };
+    let log = format!("{}{}", String::from_utf8_lossy(&out.stdout), String::from_utf8_lossy(&out.stderr));
+    let execs: u64 = log
+        .lines()
+        .filter_map(|l| l.split("stat::number_of_executed_units:").nth(1).and_then(|v| v.trim().parse::<u64>().ok()))
+        .sum::<u64>()
+        .max(log.lines().filter_map(|l| l.strip_prefix("#").and_then(|r| r.split(':').next()).and_then(|n| n.trim().parse::<u64>().ok())).max().unwrap_or(0));
+    part.cases = execs;
+    part.evaluations = execs;
+    let corpus_files = std::fs::read_dir(&corpus).map(|d| d.count()).unwrap_or(0);
+    part.labels.insert("corpus-entries-after-campaign".into(), corpus_files as u64);
+    // count distinct non-trivial corpus entries with the check itself
+    if let Ok(rd) = std::fs::read_dir(&corpus) {
+        for e in rd.flatten().take(5000) {
+            if let Ok(bytes) = std::fs::read(e.path()) {
+                let r = check.run(&bytes);
+                if r.nontrivial {
+                    part.nontrivial_keys.insert(r.key);
+                }
+                if part.samples.len() < 2 && r.nontrivial {
+                    part.samples.push(check.describe(&bytes));
+                }
+            }
+        }
+    }
+    // crashes: confirm through the check
+    if let Ok(rd) = std::fs::read_dir(&artifacts) {
+        for e in rd.flatten() {
+            let Ok(bytes) = std::fs::read(e.path()) else { continue };
+            let r = check.run(&bytes);
+            if let Some(f) = unknown_failure(ctx, &r, None) {
+                let path = write_replay(ctx, check, &bytes, &f);
+                part.violation = Some(Violation { sig: f.sig, what: f.what, replay: path });
+                break;
+            } else {
+                part.labels.insert("artifact-not-confirmed-by-check(resource limit?)".into(), 1);
+            }
+        }
+    }
+    if !out.status.success() && part.violation.is_none() && execs == 0 {
+        part.labels.insert("inconclusive: fuzz build or run failed".into(), 1);
+        eprintln!("fuzz campaign {} did not run: {}", target, log.lines().rev().take(12).collect::<Vec<_>>().join(" | "));
+    }
+    part.wall_s = t0.elapsed().as_secs_f64();
+    part
+}
